@@ -64,6 +64,7 @@ def scriptExecOp (toksHex funcsHex : String) : String :=
   let s := Sx.run fns toks (if ranked then need else 400000)
   if s.bad then s!"unsupported wf={if wf then 1 else 0} ranked={if ranked then 1 else 0}" else
   let lg := showLog s.log
-  s!"wf={if wf then 1 else 0} ranked={if ranked then 1 else 0} need={need} log={if lg.isEmpty then "~" else hex (lg.toUTF8.toList.map (fun b => b.toNat))} notes={if s.notes.isEmpty then "~" else ",".intercalate (s.notes.map toString)} stack={s.stack.length} brk={s.brk}"
+  let big := s.scopes.any (fun sc => sc.any (fun p => match p.2 with | some (.int i) => decide (i.natAbs ≥ 4611686018427387904) | _ => false))
+  s!"big={if big then 1 else 0} wf={if wf then 1 else 0} ranked={if ranked then 1 else 0} need={need} log={if lg.isEmpty then "~" else hex (lg.toUTF8.toList.map (fun b => b.toNat))} notes={if s.notes.isEmpty then "~" else ",".intercalate (s.notes.map toString)} stack={s.stack.length} brk={s.brk}"
 
 end Sakura.Driver
